@@ -33,3 +33,22 @@ def fa_kind(a):
     if isinstance(a, NondeterministicFiniteAutomaton):
         return "nfa"
     return "enfa"
+
+
+def cfg(g):
+    """CFG -> ref Grammar over (kind, value) symbols; kinds by isinstance, never by value equality"""
+    from pyformlang.cfg import Variable, Terminal
+    from vf.ref.cfg import Grammar
+    prods = []
+    for p in g.productions:
+        body = []
+        for x in p.body:
+            if isinstance(x, Variable):
+                body.append(("V", x.value))
+            elif isinstance(x, Terminal):
+                body.append(("T", x.value))
+            else:
+                body.append(("?", repr(x)))
+        prods.append((p.head.value, tuple(body)))
+    start = g.start_symbol.value if g.start_symbol is not None else None
+    return Grammar(prods, start, [v.value for v in g.variables], [t.value for t in g.terminals])
